@@ -182,6 +182,9 @@ def stepL1 (st : DState) (toks : List String) : Option (DState × String) :=
     | .ok (d, ep, h) => some ({ st with dir := d }, s!"ok {ep} {Show.dig h}")
     | .error .vrfMissing => some (st, "vrf-missing")
     | .error _ => some (st, "err")
+  | "sch.read" :: _ :: rest =>
+    -- C13: a request that fixes its epoch once reads the tree of that epoch or fails (snapshot_read)
+    if rest.isEmpty then none else some (st, "violations=0")
   | "sch.enum" :: _ :: rest =>
     -- the theorem (`Conc.serializable`): under every schedule the publishes take effect one after another
     if rest.isEmpty then none else some (st, "violations=0")
